@@ -123,6 +123,7 @@ func (s *allocSys) final(c *mc.SeqCtx) {
 		s.release(0, len(s.held)%2 == 0)
 	}
 	seen := map[uint32]bool{}
+	var order []uint32
 	for len(seen) <= s.capS+70 {
 		sec, n, err := s.a.AllocateContiguous(1)
 		if err != nil {
@@ -133,12 +134,13 @@ func (s *allocSys) final(c *mc.SeqCtx) {
 			return
 		}
 		seen[sec] = true
+		order = append(order, sec)
 	}
 	if len(seen) != s.capS {
 		c.FailP(prop, "conservation/sectors-after-close", "after freeing everything %d sectors can be allocated, capacity is %d", len(seen), s.capS)
 		return
 	}
-	for sec := range seen {
+	for _, sec := range order {
 		s.a.FreeContiguous(sec, 1)
 	}
 	total := 0
